@@ -86,7 +86,9 @@ _binary = None
 def drv_binary():
     global _binary
     if _binary is None:
-        _binary = drv.build(DRV_WORK, DRV_TARGET)
+        import common
+        with common.locked("cargo-drv"):
+            _binary = drv.build(DRV_WORK, DRV_TARGET)
     return _binary
 
 
@@ -817,13 +819,34 @@ def t_constraint(rng, code):
         other = rng.choice([struct("C", [scalar("q", 8)]), custom_field("C", 8), checksum("C", 8)])
         return constraint_ctx(rng, ty, [constraint("x", tag_id="X")], [other])
     if code == 22:
-        k = rng.randrange(3)
+        k = rng.randrange(5)
         if k == 0:
             return constraint_ctx(rng, sc, [constraint("x", 0), constraint("x", 1 & mx)])
         if k == 1:
             return finish(rng, [packet("A", sc + [payload()]), packet("B", [payload()], parent_id="A", constraints=[constraint("x", 0)]),
                                 packet("C", [], parent_id="B", constraints=[constraint("x", 1 & mx)])])
-        return constraint_ctx(rng, sc + ty, [constraint("x", 0), constraint("x", tag_id="X"), constraint("x", 0)], [en])
+        if k == 2:
+            return constraint_ctx(rng, sc + ty, [constraint("x", 0), constraint("x", tag_id="X"), constraint("x", 0)], [en])
+        # constrained again by a NON-ADJACENT descendant (one or two declarations in between
+        # that leave the field alone)
+        mids = rng.choice([1, 2])
+        decls = [packet("A", sc + [payload()]), packet("B", [payload()], parent_id="A", constraints=[constraint("x", 0)])]
+        prev = "B"
+        for m in range(mids):
+            decls.append(packet(f"M{m}", [scalar(f"m{m}", 8), payload()], parent_id=prev))
+            prev = f"M{m}"
+        decls.append(packet("C", [], parent_id=prev, constraints=[constraint("x", 1 & mx)]))
+        return finish(rng, decls)
+    if code == 220:   # valid: a field of a DISTANT ancestor constrained once, far down the chain
+        depth = rng.choice([2, 3, 4])
+        decls = [packet("A", sc + [scalar("y", 8), payload()])]
+        prev = "A"
+        for m in range(depth):
+            cs = [constraint("y", 3)] if m == 0 and rng.random() < 0.5 else []
+            decls.append(packet(f"M{m}", [scalar(f"m{m}", 8), payload()], parent_id=prev, constraints=cs))
+            prev = f"M{m}"
+        decls.append(packet("C", [], parent_id=prev, constraints=[constraint("x", 1 & mx)]))
+        return finish(rng, decls)
     if code == 42:
         return constraint_ctx(rng, ty, [constraint("x", tag_id="R")], [en])
     if code == 420:   # valid enum constraints: value tag, default tag
@@ -1039,7 +1062,7 @@ TEMPLATES = {
     "E15": lambda r: t_constraint(r, 15), "E16": lambda r: t_constraint(r, 16), "E17": lambda r: t_constraint(r, 17),
     "E18": lambda r: t_constraint(r, 18), "E18ok": lambda r: t_constraint(r, 180), "E19": lambda r: t_constraint(r, 19),
     "E20": lambda r: t_constraint(r, 20), "E21": lambda r: t_constraint(r, 21), "E21tag": lambda r: t_constraint(r, 210),
-    "E22": lambda r: t_constraint(r, 22), "E42": lambda r: t_constraint(r, 42), "E42ok": lambda r: t_constraint(r, 420),
+    "E22": lambda r: t_constraint(r, 22), "E22deep-ok": lambda r: t_constraint(r, 220), "E42": lambda r: t_constraint(r, 42), "E42ok": lambda r: t_constraint(r, 420),
     "E23": lambda r: t_size(r, 23), "E24": lambda r: t_size(r, 24), "E25": lambda r: t_size(r, 25),
     "E26": lambda r: t_size(r, 26), "E27": lambda r: t_size(r, 27), "E28": lambda r: t_size(r, 28),
     "E29": lambda r: t_size(r, 29), "E30": lambda r: t_size(r, 30), "E31": lambda r: t_size(r, 31),
